@@ -13,7 +13,7 @@ CONF = {
         'Go unbuffered/nil/closed channel semantics as modelled (rendezvous; receive from a closed channel returns at once; '
         'send on / close of a closed or nil channel panics; operations on a nil channel block)',
         'the Go scheduler runs runnable goroutines: the model proves "no step is enabled, for ever" / "always terminates", the harness '
-        'observes "both goroutines returned" or "not finished after 200 ms, and again not after 600 ms in a fresh run" (label: partial)',
+        'observes "both goroutines returned" or "neither finished nor had any call return on either side during a whole 200 ms watchdog period, and again during a 600 ms period in a fresh run" (label: partial)',
         'one consumer goroutine (Read/Close are not called concurrently with each other), one assembler goroutine, the history ends '
         'with ReassemblyComplete; stream made by NewReaderStream (the zero-value stream is modelled and compared but outside the theorems)',
         'Read advancing Reassembly.Bytes in place inside the assembler-owned slice is not modelled (values are immutable lists)',
@@ -25,6 +25,6 @@ CONF = {
                    'C20_bytes: the events returned by Read (bytes, and a loss per Skip != 0 with LossErrors) followed by what is still '
                    'pending are exactly the delivered ones, EOF only at the end and then for ever; C20_schedule_independent: the final '
                    'state does not depend on the schedule (diamond property). PARTIAL for the deadlock part of the tie: the model proves '
-                   'stuck-for-ever / always-terminates, the harness observes a 200 ms (+600 ms confirmation) watchdog. '
+                   'stuck-for-ever / always-terminates, the harness observes a 200 ms (+600 ms confirmation) no-progress watchdog; a one-off -race build of the harness over the quick cases reported no data race. C20_assembler_waits_only_for_reader: the assembler is blocked only while the consumer holds the batch. '
                    'C20_progress_refuted / C20_loss_refuted document the two defects of the unrepaired code.',
 }
